@@ -34,11 +34,19 @@ impl RequestHandler<Completion> for CompletionHandler {
                 // Try to determine the previous characters to see if we're trying to auto-complete inside a scope
                 let mut line = "";
                 let mut nested_scope = None;
-                if let Some(source_file) = codegen.tree().files.get(path) {
+                if let Some(source_file) = codegen
+                    .tree()
+                    .files
+                    .get(path)
+                    .filter(|f| source_line < f.file.num_lines())
+                {
                     line = source_file.file.source_line(source_line);
 
                     // Only look at the line until the source_column
-                    if source_column <= line.len() && source_column > 0 {
+                    if source_column <= line.len()
+                        && source_column > 0
+                        && line.is_char_boundary(source_column - 1)
+                    {
                         let (line, suffix) = line.split_at(source_column - 1);
 
                         // Are we autocompleting a dot?
